@@ -254,9 +254,10 @@ inline Structure gen_structure(uint64_t seed, const GenOpt& g) {
         rid.name = poly ? r.pick(aa) : water ? r.pick(wat) : r.pick(lig);
         if (g.cif_names && r.chance(15) && !water) rid.name = r.pick(std::vector<std::string>{"A1BCD", "LONGN", "0XY12"});
         char icode = ' ';
-        if (ir > 0 && r.chance(12)) {  // same number, new insertion code (or microheterogeneity)
+        bool after_mh = ch.residues.size() >= 2 && ch.residues.back().seqid == ch.residues[ch.residues.size() - 2].seqid;
+        if (ir > 0 && r.chance(after_mh ? 50 : 12)) {  // same number, new insertion code (or microheterogeneity)
           const Residue& prev = ch.residues.back();
-          if (r.chance(70) || prev.name == rid.name || water || !poly)
+          if ((!after_mh && r.chance(70)) || prev.name == rid.name || water || !poly)
             icode = prev.seqid.icode == ' ' ? 'A' : prev.seqid.icode == 'Z' ? 0 : char(prev.seqid.icode + 1);
           else
             icode = prev.seqid.icode;  // microheterogeneity: same seqid, other name
@@ -338,6 +339,7 @@ inline Structure gen_structure(uint64_t seed, const GenOpt& g) {
   Model& m0 = st.models[0];
   // kind 0: residue only; 1: atom whose name starts with its element symbol (so that the reader's
   // element inference from the padded name agrees with the element); 2: atom with a name of <= 3 characters
+  bool want_altloc = false;   // prefer atoms that have an alternative-location letter (for LINK partners)
   auto rand_res_addr = [&](int kind) {
     for (int attempt = 0; ; ++attempt) {
       const Chain& ch = m0.chains[r.below((int)m0.chains.size())];
@@ -345,6 +347,7 @@ inline Structure gen_structure(uint64_t seed, const GenOpt& g) {
       AtomAddress a(ch.name, res.seqid, res.name, "");
       if (kind != 0) {
         const Atom& at = res.atoms[r.below((int)res.atoms.size())];
+        if (want_altloc && at.altloc == '\0' && attempt < 40) continue;
         const char* un = at.element.uname();
         bool ok = kind == 1 ? (at.element != El::X && at.name.compare(0, std::strlen(un), un) == 0) : at.name.size() <= 3;
         if (!ok && attempt < 50) continue;
@@ -364,7 +367,17 @@ inline Structure gen_structure(uint64_t seed, const GenOpt& g) {
     e.entity_type = EntityType::Polymer;
     e.subchains.push_back(polymer.subchain_id());
     int n = r.pick(std::vector<int>{1, 2, 5, 12, 13, 14, 26, 27, 3});
-    for (int i = 0; i < n; ++i) e.full_sequence.push_back(r.pick(aa));
+    for (int i = 0; i < n; ++i) {
+      std::string mon = r.pick(aa);
+      // microheterogeneity in the sequence (mmCIF only: SEQRES has one name per position): "A,B" or "A,B,C"
+      if (g.no_segment && r.chance(15)) {
+        for (int extra = r.chance(40) ? 2 : 1; extra > 0; --extra) {
+          std::string other = r.pick(aa);
+          if (("," + mon + ",").find("," + other + ",") == std::string::npos) mon += "," + other;
+        }
+      }
+      e.full_sequence.push_back(mon);
+    }
     if (r.chance(40)) {
       Entity::DbRef d;
       d.db_name = r.pick(std::vector<std::string>{"UNP", "PDB", "GB"});
@@ -435,10 +448,12 @@ inline Structure gen_structure(uint64_t seed, const GenOpt& g) {
     int covale = 0, metalc = 0;
     for (int i = wide ? 0 : r.below(3); i > 0; --i) {
       Connection c;
+      want_altloc = r.chance(35);
       c.partner1 = rand_res_addr(1);
       c.partner2 = rand_res_addr(1);
+      want_altloc = false;
       if (c.partner1.chain_name.empty() || c.partner2.chain_name.empty()) continue;
-      const_CRA c1 = m0.find_cra(c.partner1), c2 = m0.find_cra(c.partner2);
+      const_CRA c1 = m0.find_cra(c.partner1, true), c2 = m0.find_cra(c.partner2, true);   // addresses carry no segment id
       if (!c1.atom || !c2.atom || c1.atom == c2.atom) continue;
       // the record identifies atoms by name+altloc within a residue; take unambiguous ones
       bool metal = is_metal(c1.atom->element.elem) || is_metal(c2.atom->element.elem);
